@@ -870,6 +870,119 @@ func checkC09(c *Ctx, r *Report) {
 			r8.Check(ok && n >= 1, k+": looks entries up by the suffix-stripped address", f.Pos(), n, "", "", "")
 		}
 	}
+
+	// ---- R9 ---------------------------------------------------------------
+	r9 := r.Rule("C09-R9", "E6", 6, "the expiry heap keeps its own books (container/heap calls these): Swap leaves each of the two entries knowing its new position, Push records the position it appends at and appends, Pop marks the entry as off the heap and shortens the heap by one; Less orders by Expiry")
+	pm := func(n string) string { return "(*" + paT + ")." + n }
+	heapK := paT + ".expiringHeap"
+	idxK := memP + ".expiringAddr.heapIndex"
+	isHeap := func(v ssa.Value) bool { return isLoadOfField(heapK)(strip2(v)) }
+	// the position stored into entry heap[k].heapIndex
+	idxStores := func(f *ssa.Function) map[ssa.Value]ssa.Value {
+		out := map[ssa.Value]ssa.Value{}
+		allInstrs(f, func(in ssa.Instruction) {
+			st, ok := in.(*ssa.Store)
+			if !ok || !isFieldWrite(in, idxK) {
+				return
+			}
+			_, base := fieldAddrOf(st.Addr)
+			ld, isLd := resolveLoad(strip2(base)).(*ssa.UnOp)
+			if !isLd || ld.Op != token.MUL {
+				out[resolveLoad(strip2(base))] = st.Val
+				return
+			}
+			if ia, isIA := ld.X.(*ssa.IndexAddr); isIA && isHeap(ia.X) {
+				out[resolveLoad(strip2(ia.Index))] = st.Val
+			} else {
+				out[ld] = st.Val
+			}
+		})
+		return out
+	}
+	if f := r9.need(pm("Swap")); f != nil && len(f.Params) == 3 {
+		st := idxStores(f)
+		okS := true
+		for _, p := range f.Params[1:] {
+			v, has := st[ssa.Value(p)]
+			if !has || resolveLoad(strip2(v)) != ssa.Value(p) {
+				okS = false
+			}
+		}
+		r9.Check(okS, pm("Swap")+": heap[i].heapIndex = i and heap[j].heapIndex = j after the exchange", f.Pos(), 2, "", "an entry believes it sits where the other one is: heap.Fix / heap.Remove then move or drop the wrong address", "")
+	}
+	if f := r9.need(pm("Push")); f != nil {
+		apps := findInstrs(f, func(in ssa.Instruction) bool {
+			st, ok := in.(*ssa.Store)
+			if !ok || !isFieldWrite(in, heapK) {
+				return false
+			}
+			call, isC := resolveLoad(strip2(st.Val)).(*ssa.Call)
+			return isC && calleeKey(call) == "builtin.append" && isHeap(call.Call.Args[0])
+		})
+		r9.mustPass(f, pm("Push")+": the entry is appended to the heap", &Cut{Fn: f, Target: isRetInstr, Sep: inSet(apps)}, len(apps))
+		okI := false
+		for _, v := range idxStores(f) {
+			if ci := isResultOfCall(resolveLoad(strip2(v)), 0, "builtin.len"); ci != nil && isHeap(ci.Common().Args[0]) {
+				okI = true
+			}
+		}
+		r9.Check(okI, pm("Push")+": the entry records len(heap), the position it is appended at", f.Pos(), 1, "", "the entry looks as if it were not on the heap (or at another position)", "")
+	}
+	if f := r9.need(pm("Pop")); f != nil {
+		shr := findInstrs(f, func(in ssa.Instruction) bool {
+			st, ok := in.(*ssa.Store)
+			if !ok || !isFieldWrite(in, heapK) {
+				return false
+			}
+			sl, isS := resolveLoad(strip2(st.Val)).(*ssa.Slice)
+			if !isS || sl.High == nil || !isHeap(sl.X) {
+				return false
+			}
+			bo, isB := resolveLoad(strip2(sl.High)).(*ssa.BinOp)
+			if !isB || bo.Op != token.SUB {
+				return false
+			}
+			k, isK := constInt(bo.Y)
+			return isK && k == 1
+		})
+		r9.mustPass(f, pm("Pop")+": the heap is one entry shorter", &Cut{Fn: f, Target: isRetInstr, Sep: inSet(shr)}, len(shr))
+		okM := false
+		for _, v := range idxStores(f) {
+			if k, isK := constInt(v); isK && k == -1 {
+				okM = true
+			}
+		}
+		r9.Check(okM, pm("Pop")+": the popped entry is marked as off the heap (-1)", f.Pos(), 1, "", "a later update of the address calls heap.Fix with a stale position", "")
+	}
+	if f := r9.need(pm("Less")); f != nil && len(f.Params) == 3 {
+		okL := false
+		for _, call := range callsIn(f, "(time.Time).Before") {
+			elem := func(v ssa.Value) ssa.Value {
+				fl, base := loadOfField(resolveLoad(strip2(v)))
+				if fl == nil || fl.Name() != "Expiry" {
+					return nil
+				}
+				ld, isLd := resolveLoad(strip2(base)).(*ssa.UnOp)
+				if !isLd {
+					return nil
+				}
+				ia, isIA := ld.X.(*ssa.IndexAddr)
+				if !isIA || !isHeap(ia.X) {
+					return nil
+				}
+				return resolveLoad(strip2(ia.Index))
+			}
+			a := call.Common().Args
+			if elem(a[0]) == ssa.Value(f.Params[1]) && elem(a[1]) == ssa.Value(f.Params[2]) {
+				okL = true
+			}
+		}
+		if len(callsIn(f, "(time.Time).Before")) == 0 {
+			r9.OK(pm("Less")+": heap[i].Expiry before heap[j].Expiry", f.Pos(), 1, "not decided: no time.Before comparison")
+		} else {
+			r9.Check(okL, pm("Less")+": heap[i].Expiry before heap[j].Expiry", f.Pos(), 1, "", "the heap's root is not the entry that expires first: gc stops at a live entry and leaves expired ones", "")
+		}
+	}
 }
 
 // swapDeleteSkips finds stores s[i] = s[j] inside an index range loop over s
